@@ -7,53 +7,53 @@ open ImathVerif
 
 /-- extracted from the C++ template at T = Sym; 1 path(s) -/
 def Sphere3.circumscribe {α : Type} [Add α] [Sub α] [Mul α] [Div α] [Neg α] [LT α] [LE α] [DecidableLT α] [DecidableLE α] [DecidableEq α] [OfNat α 0] [OfNat α 1] [OfNat α 2] (tmin : α) (sqrt : α → α) (b : Box3 α) : (Sphere3 α) :=
-  let t1212 := (((1 : α) / (2 : α)) * (b.min.z + b.max.z))
-  let t1213 := (((1 : α) / (2 : α)) * (b.min.y + b.max.y))
-  let t1214 := (((1 : α) / (2 : α)) * (b.min.x + b.max.x))
-  ⟨⟨t1214, t1213, t1212⟩, (V3.length tmin sqrt ⟨(b.max.x - t1214), (b.max.y - t1213), (b.max.z - t1212)⟩)⟩
+  let t842 := (((1 : α) / (2 : α)) * (b.min.z + b.max.z))
+  let t843 := (((1 : α) / (2 : α)) * (b.min.y + b.max.y))
+  let t844 := (((1 : α) / (2 : α)) * (b.min.x + b.max.x))
+  ⟨⟨t844, t843, t842⟩, (V3.length tmin sqrt ⟨(b.max.x - t844), (b.max.y - t843), (b.max.z - t842)⟩)⟩
 
 /-- extracted from the C++ template at T = Sym; 4 path(s) -/
 def Sphere3.intersectT {α : Type} [Add α] [Sub α] [Mul α] [Div α] [Neg α] [LT α] [DecidableLT α] [OfNat α 0] [OfNat α 1] [OfNat α 2] [OfNat α 4] (sqrt : α → α) (s : Sphere3 α) (l : Line3 α) : (Bool × α) :=
-  let t1223 := (l.pos.z - s.center.z)
-  let t1224 := (l.pos.y - s.center.y)
-  let t1225 := (l.pos.x - s.center.x)
-  let t1231 := ((2 : α) * (((l.dir.x * t1225) + (l.dir.y * t1224)) + (l.dir.z * t1223)))
-  let t1242 := ((t1231 * t1231) - ((4 : α) * ((((t1225 * t1225) + (t1224 * t1224)) + (t1223 * t1223)) - (s.radius * s.radius))))
-  let t1243 := (sqrt t1242)
-  let t1244 := (-t1231)
-  let t1246 := ((t1244 - t1243) * ((1 : α) / (2 : α)))
-  let t1248 := ((t1244 + t1243) * ((1 : α) / (2 : α)))
-  if t1242 < (0 : α) then
+  let t853 := (l.pos.z - s.center.z)
+  let t854 := (l.pos.y - s.center.y)
+  let t855 := (l.pos.x - s.center.x)
+  let t861 := ((2 : α) * (((l.dir.x * t855) + (l.dir.y * t854)) + (l.dir.z * t853)))
+  let t872 := ((t861 * t861) - ((4 : α) * ((((t855 * t855) + (t854 * t854)) + (t853 * t853)) - (s.radius * s.radius))))
+  let t873 := (sqrt t872)
+  let t874 := (-t861)
+  let t876 := ((t874 - t873) * ((1 : α) / (2 : α)))
+  let t878 := ((t874 + t873) * ((1 : α) / (2 : α)))
+  if t872 < (0 : α) then
     (false, (0 : α))
   else
-    if t1246 < (0 : α) then
-      if t1248 < (0 : α) then
-        (false, t1248)
+    if t876 < (0 : α) then
+      if t878 < (0 : α) then
+        (false, t878)
       else
-        (true, t1248)
+        (true, t878)
     else
-      (true, t1246)
+      (true, t876)
 
 /-- extracted from the C++ template at T = Sym; 4 path(s) -/
 def Sphere3.intersect {α : Type} [Add α] [Sub α] [Mul α] [Div α] [Neg α] [LT α] [DecidableLT α] [OfNat α 0] [OfNat α 1] [OfNat α 2] [OfNat α 4] (sqrt : α → α) (s : Sphere3 α) (l : Line3 α) : (Bool × (V3 α)) :=
-  let t1223 := (l.pos.z - s.center.z)
-  let t1224 := (l.pos.y - s.center.y)
-  let t1225 := (l.pos.x - s.center.x)
-  let t1231 := ((2 : α) * (((l.dir.x * t1225) + (l.dir.y * t1224)) + (l.dir.z * t1223)))
-  let t1242 := ((t1231 * t1231) - ((4 : α) * ((((t1225 * t1225) + (t1224 * t1224)) + (t1223 * t1223)) - (s.radius * s.radius))))
-  let t1243 := (sqrt t1242)
-  let t1244 := (-t1231)
-  let t1246 := ((t1244 - t1243) * ((1 : α) / (2 : α)))
-  let t1248 := ((t1244 + t1243) * ((1 : α) / (2 : α)))
-  if t1242 < (0 : α) then
+  let t853 := (l.pos.z - s.center.z)
+  let t854 := (l.pos.y - s.center.y)
+  let t855 := (l.pos.x - s.center.x)
+  let t861 := ((2 : α) * (((l.dir.x * t855) + (l.dir.y * t854)) + (l.dir.z * t853)))
+  let t872 := ((t861 * t861) - ((4 : α) * ((((t855 * t855) + (t854 * t854)) + (t853 * t853)) - (s.radius * s.radius))))
+  let t873 := (sqrt t872)
+  let t874 := (-t861)
+  let t876 := ((t874 - t873) * ((1 : α) / (2 : α)))
+  let t878 := ((t874 + t873) * ((1 : α) / (2 : α)))
+  if t872 < (0 : α) then
     (false, ⟨(0 : α), (0 : α), (0 : α)⟩)
   else
-    if t1246 < (0 : α) then
-      if t1248 < (0 : α) then
+    if t876 < (0 : α) then
+      if t878 < (0 : α) then
         (false, ⟨(0 : α), (0 : α), (0 : α)⟩)
       else
-        (true, ⟨(l.pos.x + (l.dir.x * t1248)), (l.pos.y + (l.dir.y * t1248)), (l.pos.z + (l.dir.z * t1248))⟩)
+        (true, ⟨(l.pos.x + (l.dir.x * t878)), (l.pos.y + (l.dir.y * t878)), (l.pos.z + (l.dir.z * t878))⟩)
     else
-      (true, ⟨(l.pos.x + (l.dir.x * t1246)), (l.pos.y + (l.dir.y * t1246)), (l.pos.z + (l.dir.z * t1246))⟩)
+      (true, ⟨(l.pos.x + (l.dir.x * t876)), (l.pos.y + (l.dir.y * t876)), (l.pos.z + (l.dir.z * t876))⟩)
 
 end ImathVerif.Gen
